@@ -41,8 +41,12 @@ def run(ctx, F, cg):
         for i, j, pl, rv, line, exp in ob.stmts():
             if rv[0] == "bin" and rv[1] in ("Lt", "Le", "Gt", "Ge", "Eq", "Ne"):
                 cmpv = True
-        if reads_ver and pushes and cmpv:
-            ctx.ok("R07a", short, "version compared with current_version; older-version branch pushes a clone")
+        guard_hole = _cow_guard_hole(ob) if (reads_ver and pushes and cmpv and owner == p) else None
+        if reads_ver and pushes and cmpv and guard_hole is None:
+            ctx.ok("R07a", short, "version compared with current_version; every in-place access on the older-version side comes after the push of a clone")
+        elif reads_ver and pushes and cmpv:
+            ctx.violation("R07a", "cow-guard-bypassed|" + short, where(F.fns[owner], guard_hole),
+                          "%s compares the latest version with current_version, but on the older-version side it can still reach last_mut() without pushing a clone first (the copy-on-write test has an extra condition): that write lands in the old version and a read at that version changes" % short)
         else:
             ctx.violation("R07a", "in-place-history-mutation|" + short, where(F.fns[owner]),
                           "%s takes last_mut() of the version chain without a copy-on-write guard (version compare=%s, push of a new version=%s): a read at an older version changes after this call" % (short, reads_ver and cmpv, pushes))
@@ -155,3 +159,52 @@ def _creates_edge(F, p):
     if not r:
         return False
     return any(c.startswith(GS + "::create_edge") for c in r["calls"])
+
+
+def _cow_guard_hole(b):
+    """line of a last_mut() reachable from the `latest.version < current_version` side without passing the push of a
+    new version; None when there is no such path (or 0-line sentinel when the comparison cannot be located)."""
+    def kind(op):
+        if op[0] == "k":
+            return None
+        pl = op[1]
+        for _ in range(8):
+            fs = [x for x in pl[1] if x.startswith("f:")]
+            if fs:
+                if fs[-1].endswith("node::Node.version"):
+                    return "V"
+                if fs[-1].endswith("GraphStore.current_version"):
+                    return "C"
+                return None
+            ds = b.defs().get(pl[0], [])
+            if len(ds) != 1 or ds[0][0] != "stmt" or ds[0][4][0] != "use" or ds[0][4][1][0] == "k":
+                return None
+            pl = ds[0][4][1][1]
+        return None
+    lms = [c for c in b.calls() if c.path.rsplit("::", 1)[-1] == "last_mut" and "node::Node" in c.full]
+    pushes = {c.bb for c in b.calls() if c.path.rsplit("::", 1)[-1] == "push" and "node::Node" in c.full}
+    found = False
+    for i, j, pl, rv, line, exp in b.stmts():
+        if rv[0] != "bin" or rv[1] not in ("Lt", "Le", "Gt", "Ge", "Eq", "Ne"):
+            continue
+        ka, kb = kind(rv[2]), kind(rv[3])
+        if {ka, kb} != {"V", "C"}:
+            continue
+        op = rv[1]
+        if ka == "C":       # normalise to op(V, C)
+            op = {"Lt": "Gt", "Le": "Ge", "Gt": "Lt", "Ge": "Le"}.get(op, op)
+        older_true = op in ("Lt", "Le", "Ne")
+        # the switch testing this comparison
+        for bi in sorted(b.live_blocks()):
+            t = b.blocks[bi]["t"]
+            if t[0] == "switch" and t[1][0] != "k" and t[1][1][0] == pl[0]:
+                found = True
+                zero = [tgt for v, tgt in t[2] if v == "0"]
+                older_t = t[3] if older_true else (zero[0] if zero else None)
+                if older_t is None:
+                    continue
+                free = b.reachable(older_t, avoid=pushes)
+                for c in lms:
+                    if c.bb in free:
+                        return c.line
+    return None if found else 0
